@@ -21,7 +21,7 @@ BATCH = 40
 
 DET = ['emm', 'emm_obj', 'emm_lumped', 'its', 'ck', 'coring', 'coring_obj', 'wt', 'paths', 'sim', 'shift',
        'rename_idx', 'rename_pop', 'unique', 'peq', 'is_ergodic', 'mask', 'eig', 'gauss', 'gauss2d', 'rmean',
-       'rownorm', 'mpow', 'swapcols', 'format', 'statetraj']
+       'rownorm', 'mpow', 'swapcols', 'swapcols_f', 'format', 'statetraj', 'peq_big', 'eig_big', 'sim_obj', 'ck_obj']
 RND = ['mcmc', 'msm_wt', 'msm_tt', 'msm_paths', 'tmat']
 
 
@@ -108,8 +108,15 @@ def impl(case):
     series = np.array([float(v) * 0.5 for v in case['trajs'][0]])
     table = np.array([[float(v), float(v * v % 7)] for v in case['trajs'][0]])
     other = [np.array([present[(present.index(v) + 1) % 2] for v in t], dtype=dt) for t in case['trajs']]
+    rs = np.random.RandomState(len(case['trajs'][0]))
+    Cbig = rs.randint(0, 4, size=(120, 120)) + np.eye(120, dtype=int)
+    Tbig = Cbig / Cbig.sum(axis=1)[:, None]
+    table_f = np.asfortranarray(np.array([[float(v), float(v * v % 7), float(v % 3)] for v in case['trajs'][0]]))
+    row1 = np.array([[1.0, 2.0, 3.0]])
+    oobj = mh.StateTraj([np.array(t) for t in other])
     shared = {'trajs': trajs, 'arr2': arr2, 'obj': obj, 'lobj': lobj, 'T': T, 'series': series, 'table': table,
-              'other': other, 'S': list(case['S']), 'F': list(case['F'])}
+              'other': other, 'S': list(case['S']), 'F': list(case['F']), 'Tbig': Tbig, 'table_f': table_f, 'row1': row1,
+              'oobj': oobj}
 
     def snap():
         s = {}
@@ -154,6 +161,12 @@ def impl(case):
         'rownorm': lambda: mh.msm.row_normalize_matrix(T * 3.0),
         'mpow': lambda: mh.utils.matrix_power(T, 3),
         'swapcols': lambda: mh.utils.swapcols(table, [0, 1], [1, 0]),
+        'swapcols_f': lambda: [mh.utils.swapcols(table_f, [0, 1, 2], [2, 0, 1]), mh.utils.swapcols(row1, [0, 2], [2, 0])],
+        'peq_big': lambda: mh.msm.peq(Tbig),
+        'eig_big': lambda: mh.msm.utils.linalg.left_eigenvalues(Tbig, nvals=3),
+        'sim_obj': lambda: [mh.md.compare_discretization(obj, oobj), mh.md.compare_discretization(oobj, obj, method='directed')],
+        'ck_obj': lambda: {str(k): [v['time'].tolist(), {str(s): c.tolist() for s, c in v['ck'].items()}]
+                           for k, v in mh.msm.ck_test(obj, [lag], 3 * lag + 1).items()},
         'format': lambda: mh.utils.format_state_traj(arr2),
         'statetraj': lambda: [mh.StateTraj(trajs).trajs, mh.StateTraj(arr2).index_trajs, mh.StateTraj(obj) is obj],
         'mcmc': lambda: mh.msm.timescales.propagate_MCMC(trajs, lag, 50),
@@ -165,9 +178,28 @@ def impl(case):
     }
     import msmhelper.utils.datasets  # noqa
 
+    def scribble(x):
+        # a caller may do what it likes with returned values: overwrite every returned array in place
+        if isinstance(x, np.ndarray):
+            if x.flags.writeable and x.size:
+                try:
+                    x[...] = x * 0 - 7 if x.dtype != bool else ~x
+                except Exception:  # noqa
+                    pass
+        elif isinstance(x, dict):
+            for v in x.values():
+                scribble(v)
+        elif isinstance(x, (list, tuple)):
+            for v in x:
+                scribble(v)
+
     def run(name):
         try:
-            return canon_deep(calls[name]())
+            raw = calls[name]()
+            res = canon_deep(raw)
+            if name != 'format':      # format_state_traj hands out views of a 2-d input by design (a conversion helper)
+                scribble(raw)
+            return res
         except Exception as exc:  # noqa
             return {'err': type(exc).__name__}
 
